@@ -117,6 +117,17 @@ def harness_cmd(b):
         san = san if san is not None else SAN_ASAN
         inc += ' -I' + os.path.join(root, 'gen')
     srcs = [os.path.join(VERIF, b['src'])] + [os.path.join(REPO, s) for s in b.get('extra_src', [])]
+    if b.get('extra_src'):
+        # ONE translation unit (a generated file that #includes the harness and the repository sources): with several
+        # sources on one command line the compiler's -MF depfile only describes the last one, and a change to a header
+        # included by the harness alone would not trigger a rebuild
+        unity = os.path.join(root, 'gen', b['name'] + '_unity.cpp')
+        os.makedirs(os.path.dirname(unity), exist_ok=True)
+        txt = ''.join('#include "%s"\n' % x for x in srcs)
+        if not os.path.exists(unity) or open(unity).read() != txt:
+            open(unity, 'w').write(txt)
+        deps = deps + srcs
+        srcs = [unity]
     if b.get('fuzzer'):
         san = san.replace('-fsanitize=address', '-fsanitize=fuzzer,address')
         rclib = ''
@@ -125,7 +136,7 @@ def harness_cmd(b):
     cmd = '%s -std=gnu++17 %s %s -D%s %s %s %s -MMD -MF %s.d %s -o %s %s %s %s -ldl -lpthread' % (
         cxx, b.get('opt', OPT), san, GUARD, defs, b.get('flags', ''), inc, out,
         ' '.join(srcs), out, libs, rclib, b.get('libs', ''))
-    return out, cmd, srcs + deps
+    return out, cmd, list(dict.fromkeys(srcs + deps))
 
 
 def gen_version_h():
